@@ -549,7 +549,7 @@ class Executor:
 
     def feasible(self, st):
         s = z3.Solver()
-        s.set("timeout", 3000)
+        s.set("timeout", 400)
         for f in st.pc:
             s.add(f)
         r = s.check()
@@ -1823,11 +1823,12 @@ BUILTINS = {"INT"}
 # discharge
 
 
-def solve(ob, timeout_ms=20000, want_model=True):
-    """returns (status, backend, seconds, model) ; status in discharged | violated | undecided"""
+def solve(ob, timeout_ms=20000, want_model=True, stage=1):
+    """stage 1: z3 API with a short budget; returns (status, backend, seconds, model);
+    status in discharged | violated | undecided"""
     t0 = time.time()
     s = z3.Solver()
-    s.set("timeout", timeout_ms)
+    s.set("timeout", min(timeout_ms, 8000))
     for f in ob.pc:
         s.add(f)
     s.add(z3.Not(ob.goal))
@@ -1837,12 +1838,20 @@ def solve(ob, timeout_ms=20000, want_model=True):
         return "discharged", "z3-5.1(api)", dt, None
     if r == z3.sat:
         return "violated", "z3-5.1(api)", dt, s.model()
-    # second opinions on unknown
+    return "undecided", "z3-5.1(api)", dt, None
+
+
+def solve_second(ob, timeout_ms=20000):
+    """stage 2 (after the finite-universe refutation attempt): other solvers on the same query"""
+    s = z3.Solver()
+    for f in ob.pc:
+        s.add(f)
+    s.add(z3.Not(ob.goal))
     smt = s.to_smt2()
-    st2, be2, dt2 = second_opinion(smt, timeout_ms // 1000 or 1)
+    st2, be2, dt2 = second_opinion(smt, max(1, timeout_ms // 1000))
     if st2 is not None:
-        return st2, be2, dt + dt2, None
-    return "undecided", "z3-5.1(api)+cvc5+z3-4.8", dt + dt2, None
+        return st2, be2, dt2
+    return "undecided", "z3-5.1(api)+cvc5-1.0.3+z3-4.8.12", dt2
 
 
 def second_opinion(smt2, timeout_s):
@@ -1872,7 +1881,7 @@ def second_opinion(smt2, timeout_s):
     return verdict, backend, time.time() - t0
 
 
-def cover_sat(pc, timeout_ms=5000):
+def cover_sat(pc, timeout_ms=800):
     s = z3.Solver()
     s.set("timeout", timeout_ms)
     for f in pc:
